@@ -8,7 +8,7 @@ SPEC = vlib.os.path.join(vlib.VERIF, "specs", "Relay")
 # behaviour they are taken immediately when enabled
 URGENT = {"RecvLoopEnd", "DlTimeout", "Cleanup", "UpClosed", "PackRes", "InitFail"}
 
-BASE = dict(Sess='{"s1"}', Targets='{"a","ip","rej"}', Domains='{"a"}', Rejected='{"rej"}', ChanCap=2, MaxSend=2, MaxReply=1, MaxTimer=0,
+BASE = dict(Sess='{"s1"}', Targets='{"a","ip","rej"}', Domains='{"a"}', Rejected='{"rej"}', Unresolvable='{}', ChanCap=2, MaxSend=2, MaxReply=1, MaxTimer=0,
             SharedPacker="FALSE", RearmGuard="TRUE", Keyed='"addr"', EMIT="", PROPS="")
 
 
